@@ -22,10 +22,28 @@ def run(prop, tier, seed, cfg, t0=None):
     # (quick tier: every E1 check; thorough tier: the checks that ask for it, C10 and C18 - depth costs enough there)
     if tier == "quick" or "rel" in cfg.get("profiles", []):
         backends += [b + "-rel" for b in backends]
-    build_drives(backends)
+    # A back-end whose driver no longer builds against /repo (a change that breaks one of the VALID declarations of
+    # data/syn.json in one amount back-end only, seed r7-C03) must not hide what the other back-ends find: the
+    # back-ends that build are explored, violations found there are reported (they are facts about the real code);
+    # without a violation an incomplete exploration is a machinery failure (exit 2), never a "held".
+    failed = {}
     with cf.ThreadPoolExecutor(max_workers=len(backends)) as ex:
-        futs = {b: ex.submit(run_drive, b, prop, tier, None, max(4, 16 // min(len(backends), 2))) for b in backends}
+        bf = {b: ex.submit(common.build_drive, b) for b in backends}
+        for b, f in bf.items():
+            try:
+                f.result()
+            except Machinery as e:
+                failed[b] = e
+    built = [b for b in backends if b not in failed]
+    if not built:
+        raise next(iter(failed.values()))
+    with cf.ThreadPoolExecutor(max_workers=len(built)) as ex:
+        futs = {b: ex.submit(run_drive, b, prop, tier, None, max(4, 16 // min(len(built), 2))) for b in built}
         docs = {b: f.result() for b, f in futs.items()}
+    if failed:
+        if not any(d.get("by_class") for d in docs.values()) or any(d.get("machinery") for d in docs.values()):
+            raise next(iter(failed.values()))
+        print("note: qv-drive did not build for %s; reporting what %s found" % (", ".join(sorted(failed)), ", ".join(built)))
     return report(prop, tier, seed, cfg, docs, t0)
 
 
